@@ -372,3 +372,73 @@ Definition x_skip_until {A} : machine A A :=
        | ISrc (S _) Done => (is_open, [CUnsub 1%nat], Cont)
        | _ => (is_open, [], Cont)
        end).
+
+(* ------------------------------------------- C10: lazy iterables, factories -- *)
+Section CombLazy.
+Context {A : Type}.
+
+(* The iterable handed to concat_with_iterable / catch_with_iterable may be LAZY
+   (a generator; for_in = defer(concat_with_iterable(map(mapper, values)))): the
+   operator calls next() on it once at subscription and once in the handler of
+   every termination it continues on -- never ahead of time.  The production of
+   source j is made observable as effect j ([produce j] = Raise e: that call
+   raises after logging, which the operators pass on as on_error); with [tail] the
+   iterable also logs effect n when it is asked for a source and has none left.
+   Sources are numbered in the order they are produced. *)
+Definition lazy_next (n : nat) (produce : nat -> res unit) (tail : bool) (j : nat) (onend : fin)
+  : list (cmd A) * fin :=
+  if Nat.ltb j n then
+    match produce j with
+    | Ok _ => ([CEffect (Z.of_nat j); CSub j], Cont)
+    | Raise e => ([CEffect (Z.of_nat j)], Fail e)
+    end
+  else (if tail then [CEffect (Z.of_nat n)] else [], onend).
+
+(* observable/concat.py: concat_with_iterable_ over a lazy iterable of n sources;
+   reactivex/__init__.py: for_in *)
+Definition x_concat_lazy (n : nat) (produce : nat -> res unit) (tail : bool) : machine A A :=
+  Machine (let '(cs, f) := lazy_next n produce tail 0%nat Complete in (0%nat, cs, f))
+    (fun cur _ i =>
+       match i with
+       | ISrc k (Next x) => (cur, [CEmit x], Cont)
+       | ISrc k (Err e) => (cur, [], Fail e)
+       | ISrc k Done => let '(cs, f) := lazy_next n produce tail (S cur) Complete in (S cur, cs, f)
+       | _ => (cur, [], Cont)
+       end).
+
+(* observable/catch.py: catch_with_iterable_ over a lazy iterable of n sources *)
+Definition x_catch_lazy (n : nat) (produce : nat -> res unit) (tail : bool) : machine A A :=
+  Machine (let '(cs, f) := lazy_next n produce tail 0%nat Complete in (0%nat, cs, f))
+    (fun cur _ i =>
+       match i with
+       | ISrc k (Next x) => (cur, [CEmit x], Cont)
+       | ISrc k Done => (cur, [], Complete)
+       | ISrc k (Err e) => let '(cs, f) := lazy_next n produce tail (S cur) (Fail e) in (S cur, cs, f)
+       | _ => (cur, [], Cont)
+       end).
+
+(* observable/onerrorresumenext.py with FACTORY arguments: source k is given as a
+   function (is_factory k) called -- only when its turn comes -- with the error
+   the previous source ended with, or None (after a completion, and for the first
+   source).  The call is made observable as effect 1000 * k + e (e = the error
+   code, 0 for None; the harness uses codes 1..999). *)
+Definition oern_sub (is_factory : nat -> bool) (k : nat) (prev : option Z) : list (cmd A) :=
+  (if is_factory k
+   then [CEffect (1000 * Z.of_nat k + match prev with Some e => e | None => 0 end)]
+   else []) ++ [CSub k].
+
+Definition x_oern_f (n : nat) (is_factory : nat -> bool) : machine A A :=
+  Machine (match n with
+           | O => (0%nat, [], Complete)
+           | S _ => (0%nat, oern_sub is_factory 0%nat None, Cont)
+           end)
+    (fun cur _ i =>
+       match i with
+       | ISrc k (Next x) => (cur, [CEmit x], Cont)
+       | ISrc k t =>
+           if Nat.ltb (S cur) n
+           then (S cur, oern_sub is_factory (S cur) (match t with Err e => Some e | _ => None end), Cont)
+           else (S cur, [], Complete)
+       | _ => (cur, [], Cont)
+       end).
+End CombLazy.
